@@ -51,10 +51,15 @@ func (c split) Recv() ([]byte, error) {
 			continue // incomplete line
 		}
 		line := buf.Bytes()
-		if n := len(line) - 1; n >= 0 {
-			return line[:n], err
+		if err != nil {
+			// No delimiter was read: report whatever partial record there is
+			// intact, along with the error.
+			if len(line) == 0 {
+				return nil, err
+			}
+			return line, err
 		}
-		return nil, err
+		return line[:len(line)-1], nil
 	}
 }
 
